@@ -16,11 +16,15 @@ let handle op args =
     let s = Fam_msg.schema_of_id id and tid = Fam_msg.nat_cached (int_of_string tid) in
     let (a, r) = Fam_msg.parse_value toks in
     let (b, _) = Fam_msg.parse_value r in
-    "ok" :: Fam_msg.value_tokens (MergeModel.msg_merge s tid a b)
+    (match MergeModel.msg_merge s limit tid a b with
+     | Some v -> "ok" :: Fam_msg.value_tokens v
+     | None -> ["depth"])
   | "clone", id :: tid :: toks ->
     let s = Fam_msg.schema_of_id id and tid = Fam_msg.nat_cached (int_of_string tid) in
     let (a, _) = Fam_msg.parse_value toks in
-    "ok" :: Fam_msg.value_tokens (MergeModel.msg_clone s tid a)
+    (match MergeModel.msg_clone s limit tid a with
+     | Some v -> "ok" :: Fam_msg.value_tokens v
+     | None -> ["depth"])
   | "into", [id; tid; mode; x; y] ->
     let s = Fam_msg.schema_of_id id and tid = Fam_msg.nat_cached (int_of_string tid) in
     let slow = (mode = "s") in
